@@ -296,7 +296,7 @@ func (d *vpDesc) judge(t *vcTrial, sent uint64, closedHow string, wantHup bool) 
 			t.Violate("C11", "hup_missing", "descriptor %d: the peer %s but no hang-up was reported (input %d of %d); events %v", d.id, closedHow, got, sent, d.history())
 			return
 		}
-		if closedHow == "fin" && got != sent {
+		if (closedHow == "fin" || closedHow == "unread-close") && got != sent {
 			t.Violate("C11", "input_lost_at_hup", "descriptor %d: the peer wrote %d bytes and closed with FIN; %d were delivered before the hang-up; events %v", d.id, sent, got, d.history())
 			return
 		}
@@ -356,7 +356,10 @@ func vpRunKernel(t *vcTrial, ndesc int, network string) {
 		d := &vpDesc{id: i, fd: fd, peer: peer, flavour: r.intn(2), seed: r.next(), outSeed: r.next()}
 		s := &script{d: d, how: []string{"fin", "fin", "rst", "open", "shutwr"}[r.intn(5)]}
 		if network == "unix" && s.how == "rst" {
-			s.how = "fin"
+			// a unix stream peer that closes while it still holds unread bytes from us "resets" our end
+			// (ERR|HUP|RDHUP next to IN) - but unlike TCP nothing of what it had sent is discarded:
+			// every byte is readable and must be delivered before the hang-up
+			s.how = "unread-close"
 		}
 		if !batch && r.chance(12) {
 			// the read itself fails (reset/timeout/ENOMEM reported by readv): hang-up exactly once,
@@ -434,6 +437,16 @@ func vpRunKernel(t *vcTrial, ndesc int, network string) {
 			}
 		}
 		switch s.how {
+		case "unread-close":
+			syscall.Write(d.fd, []byte("bytes the peer never reads")) // from our side, outside the poller
+			big := make([]byte, sr.rng(9000, 120000))
+			vfFill(big, d.seed, s.sent)
+			syscall.SetNonblock(d.peer, true)
+			if m, _ := syscall.Write(d.peer, big); m > 0 {
+				s.sent += uint64(m)
+			}
+			syscall.Close(d.peer)
+			d.peer = -1
 		case "ioerr":
 			// keep the descriptor readable until the failing read has happened
 			for k := 0; k < 200 && atomic.LoadInt64(&s.fault.fired) == 0; k++ {
@@ -485,9 +498,10 @@ func vpRunKernel(t *vcTrial, ndesc int, network string) {
 	deadline := time.Now().Add(10 * time.Second)
 	for _, s := range scripts {
 		d := s.d
-		wantHup := s.how == "fin" || s.how == "rst" || s.how == "shutwr" || (s.how == "ioerr" && atomic.LoadInt64(&s.fault.fired) > 0)
+		wantHup := s.how == "fin" || s.how == "rst" || s.how == "unread-close" || s.how == "shutwr" || (s.how == "ioerr" && atomic.LoadInt64(&s.fault.fired) > 0)
 		for time.Now().Before(deadline) {
 			done := atomic.LoadUint64(&d.got) >= s.sent || s.how == "rst"
+			_ = done
 			if d.selfDetachAt != 0 {
 				done = atomic.LoadInt32(&d.dead) != 0 || atomic.LoadUint64(&d.got) >= s.sent
 			}
@@ -517,7 +531,7 @@ func vpRunKernel(t *vcTrial, ndesc int, network string) {
 		if t.Violated() {
 			break
 		}
-		s.d.judge(t, s.sent, s.how, s.how == "fin" || s.how == "rst" || s.how == "shutwr" || (s.how == "ioerr" && atomic.LoadInt64(&s.fault.fired) > 0))
+		s.d.judge(t, s.sent, s.how, s.how == "fin" || s.how == "rst" || s.how == "unread-close" || s.how == "shutwr" || (s.how == "ioerr" && atomic.LoadInt64(&s.fault.fired) > 0))
 		if s.how == "ioerr" {
 			t.Stat("read_errors_injected", int(atomic.LoadInt64(&s.fault.fired)))
 		}
